@@ -134,6 +134,81 @@ fn o_roundtrip(c: &RoundTrip, st: &mut Stats) -> Result<(), String> {
     Ok(())
 }
 
+/// Builder-made typed PURLs (the namespace is arbitrary text, so it may have leading, trailing or
+/// doubled slashes that a parsed PURL never has), constrained to the side condition.
+#[derive(Clone, Debug, Serialize, Deserialize)]
+pub struct BuiltCase {
+    pub ty: String,
+    pub ns: String,
+    pub name: String,
+}
+
+fn o_built(c: &BuiltCase, st: &mut Stats) -> Result<(), String> {
+    let t = PackageType::from_str(&c.ty).map_err(|_| "bad replay case: type".to_string())?;
+    let side = match c.ty.as_str() {
+        "golang" | "npm" => !c.name.contains('/'),
+        "maven" => !c.ns.contains(':'),
+        _ => c.ns.is_empty(),
+    };
+    if !side {
+        return Err("bad replay case: the side condition does not hold".into());
+    }
+    let built = guard(|| Purl::builder(t, c.name.as_str()).with_namespace(c.ns.as_str()).build()).map_err(|m| format!("build panicked: {m}"))?;
+    let Ok(p) = built else {
+        st.class("not-buildable");
+        return Ok(());
+    };
+    let o = observe(&p);
+    // the name rule may introduce nothing that breaks the side condition, but check it on the value
+    let side = match o.ty.as_str() {
+        "golang" | "npm" => !o.name.contains('/'),
+        "maven" => !o.ns.as_deref().unwrap_or("").contains(':'),
+        _ => o.ns.is_none(),
+    };
+    if !side {
+        return Ok(());
+    }
+    let combined = guard(|| p.combined_name().into_owned()).map_err(|m| format!("combined_name panicked: {m}"))?;
+    let rebuilt = guard(|| Purl::builder_with_combined_name(t, combined.as_str()).build()).map_err(|m| format!("rebuilding panicked: {m}"))?;
+    match rebuilt {
+        Err(e) => return Err(format!("{o:?}: builder_with_combined_name({}, {combined:?}).build() fails: {e}", c.ty)),
+        Ok(q) => {
+            let r = observe(&q);
+            if r.ns != o.ns || r.name != o.name {
+                return Err(format!(
+                    "builder-made PURL with namespace {:?} / name {:?}: combined_name() is {combined:?}, which splits back into {:?} / {:?}",
+                    o.ns, o.name, r.ns, r.name
+                ));
+            }
+        },
+    }
+    st.class("round-trip-builder-made");
+    let odd = c.ns.starts_with('/') || c.ns.ends_with('/') || c.ns.contains("//");
+    st.class_if(odd, "namespace-with-insignificant-slashes");
+    let seps = combined.chars().filter(|x| *x == '/' || *x == ':').count();
+    if seps >= 2 || odd {
+        st.nontrivial(&("built", c.ty.as_str(), combined.as_str()), || json!({ "case": c, "combined": combined }));
+    }
+    Ok(())
+}
+
+fn gbuilt() -> BoxedStrategy<BuiltCase> {
+    let ns = prop_oneof![
+        3 => select(&["", "/", "//", "a//b", "a/", "/a", "a/b/", "github.com/foo/", "@scope", "g", "a:b", "a/b:c", ".", "a b"][..]).prop_map(str::to_string),
+        2 => gtext(0),
+    ];
+    (select(KNOWN_TYPES), ns, prop_oneof![4 => crate::chars::gtext1(), 1 => select(&["a:b", "a:b:c", ":", "n"][..]).prop_map(str::to_string)])
+        .prop_map(|(ty, ns, name)| {
+            let (ns, name) = match ty {
+                "golang" | "npm" => (ns, name.replace('/', "|")),
+                "maven" => (ns.replace(':', ";"), name),
+                _ => (String::new(), name),
+            };
+            BuiltCase { ty: ty.into(), ns, name }
+        })
+        .boxed()
+}
+
 const SHORT: &[char] = &['a', 'B', '/', ':', '.', '@'];
 
 pub fn sections() -> Vec<Box<dyn Section>> {
@@ -186,6 +261,14 @@ pub fn sections() -> Vec<Box<dyn Section>> {
             oracle: o_roundtrip,
             required: vec!["round-trip", "two-or-more-separators"],
         }),
+        Box::new(Random {
+            name: "join-then-split-round-trip-builder-made".into(),
+            quick: 150_000,
+            thorough: 5_000_000,
+            strategy: Box::new(|_| gbuilt()),
+            oracle: o_built,
+            required: vec!["round-trip-builder-made", "namespace-with-insignificant-slashes", "not-buildable"],
+        }),
     ]
 }
 
@@ -197,7 +280,8 @@ pub fn prop() -> Prop {
                rich in '/' and ':'; oracle = reference split (last '/' for golang/npm, first ':' for maven, whole string \
                otherwise; the given type; no other field set). Round trip: typed PURLs parsed from generated spellings, \
                constrained by construction to the stated side condition (no '/' in golang/npm names, no ':' in maven \
-               namespaces, no namespace otherwise): combined_name() joins with the ecosystem separator and \
+               namespaces, no namespace otherwise) and builder-made typed PURLs whose namespace is arbitrary \
+               text (leading / trailing / doubled slashes included), under the same side condition: combined_name() joins with the ecosystem separator and \
                builder_with_combined_name(type, combined_name()).build() reproduces namespace and name. Non-trivial = \
                the string has two or more separators or a separator of the other kind; distinct by hash of (type, string).",
         assumptions: &[],
